@@ -1,0 +1,5 @@
+//go:build !verif
+
+package lint
+
+func verifGate(point string, name string) {}
